@@ -4,13 +4,14 @@ use crate::util::*;
 
 pub fn gen(tier: &str, seed: u64, emit: &mut dyn FnMut(String)) {
     let mut rng = Rng::new(seed ^ 0xC02);
+    BIG_PES.store(true, std::sync::atomic::Ordering::Relaxed);
     let n = if tier == "thorough" { 12000 } else { 1200 };
     for i in 0..n {
         let nprog = 1 + (i % 4) as usize;
         let (m, t, _p) = valid_stream(&mut rng, nprog, 1 + (i % 5) as usize, i % 3 != 0);
         // pushes cut at packet boundaries now and then
         let mut chunks: Vec<Vec<u8>> = vec![]; let mut cur: Vec<u8> = vec![];
-        for p in m.pkts.iter() { cur.extend_from_slice(p); if rng.chance(1, 25) { chunks.push(std::mem::take(&mut cur)); } }
+        for p in m.pkts.iter() { cur.extend_from_slice(p); if rng.chance(1, 25) || cur.len() >= 188 * 48 { chunks.push(std::mem::take(&mut cur)); } }
         chunks.push(cur);
         let mut line = dmx_case((i % 2) as u64, "", &chunks);
         for (pid, list) in t.pes.iter() {
